@@ -86,7 +86,7 @@ func implDecodeAll(enc mice.Encoding, stream []byte, digest string, limit uint64
 var c14Consumers = []struct {
 	name string
 	slow bool
-}{{"io.Copy", false}, {"io.CopyBuffer(3)", true}, {"Read(1-byte buffer)", true}, {"Read(rs+1 bytes, zero-length reads between)", false}, {"iotest-style OneByteReader source", true}}
+}{{"io.Copy", false}, {"io.CopyBuffer(3)", true}, {"Read(1-byte buffer)", true}, {"Read(rs+1 bytes, zero-length reads between)", false}, {"iotest-style OneByteReader source", true}, {"Read(1 byte) then io.Copy", false}}
 
 type c14PlainWriter struct{ b []byte }
 
@@ -117,6 +117,19 @@ func implDecodeVia(enc mice.Encoding, stream []byte, digest string, limit uint64
 		return nil, fmt.Errorf("NewDecoder: %v", err), nil
 	}
 	switch via {
+	case "Read(1 byte) then io.Copy":
+		var one [1]byte
+		n, e := dec.Read(one[:])
+		out = append(out, one[:n]...)
+		if e == io.EOF {
+			return out, nil, nil
+		}
+		if e != nil {
+			return out, e, nil
+		}
+		w := &c14PlainWriter{}
+		_, err = io.Copy(w, dec)
+		return append(out, w.b...), err, nil
 	case "io.Copy":
 		// a destination without ReadFrom, so that only the decoder's own methods decide the path
 		w := &c14PlainWriter{}
